@@ -21,7 +21,7 @@ RULE = (
     "relabelled and in the original field basis. Non-trivial = group element or translation differs from the identity."
 )
 ASSUMPTIONS = [
-    "tolerances: vw 2*errTol+1e-4, vJ/vLTE/T+- 1e-4 relative; wall widths and wall-centre distances 5e-3 relative (10x the largest spread observed between relabelled runs on the unchanged tree; the solver's stopping rule gives no sharper a-priori bound)",
+    "tolerances: vw 2*errTol+1e-4, vJ/vLTE/T+- 1e-4 relative; wall widths and wall-centre distances 1e-3 relative (10x the largest spread observed between relabelled runs on the unchanged tree; the solver's stopping rule gives no sharper a-priori bound)",
     "offsets are in units of each field's own width and the first field's offset is pinned to zero: the covariant quantities compared are the distances between wall centres z_i = -offset_i*width_i (mapped by the permutation)",
     "out-of-equilibrium particles excluded",
 ]
@@ -69,9 +69,10 @@ def case_pair(c: dict) -> dict:
     extra = 2 * ref["errTol"] if ref["vw"] is not None else 0.0
     r.close("Tplus", got["Tplus"] / ref["Tplus"], 1.0, 2e-4 + extra)
     r.close("Tminus", got["Tminus"] / ref["Tminus"], 1.0, 2e-4 + extra)
-    # wall shape: 10x the largest spread between relabelled runs observed on the unchanged tree (6e-4 in the widths between
-    # the two choices of the pinned field, 1e-5 otherwise); the solver's stopping rule gives no sharper a-priori bound
-    wtol = 5e-3
+    # wall shape: ~10x the largest spread between relabelled runs observed on the unchanged tree (8.5e-5 in the widths over the
+    # complete thorough lattice since the pinned offset is that of the field with the largest change, whatever the field order;
+    # it was 6e-4, and the tolerance 5e-3, while field 0 was pinned); the solver's stopping rule gives no sharper a-priori bound
+    wtol = 1e-3
     if c["base"] in SPECTATOR:
         # only the fields that take part in the transition have a wall: compare their widths, nothing about the spectator's
         live = [i for i in range(len(perm)) if perm[i] != SPECTATOR[c["base"]]]
